@@ -473,8 +473,7 @@ VARIANTS = [
     {"name": "P10 carriage return written as a hexadecimal character reference", "file": LLSD, "expect": "silent",
      "old": "        # XML parsers normalize a literal CR (or CRLF) to LF, only a character reference survives\n"
             "        return super().xml_esc(v).replace(b\"\\r\", b\"&#13;\")\n",
-     "new": "        escaped = super().xml_esc(v)\n        return escaped.replace(b\"\\r\", b\"&#xD;\") if False else "
-            "super().xml_esc(v).replace(b\"\\r\", b\"&#xD;\")\n"},
+     "new": "        return super().xml_esc(v).replace(b\"\\r\", b\"&#xD;\")\n"},
     {"name": "R6 JankStringyBytes no longer registered as binary (fix reverted)", "file": LLSD, "expect": "C12.R6",
      "old": "        self.type_map[JankStringyBytes] = self.BINARY\n", "new": ""},
     {"name": "R6 RawBytes registered with the string handler", "file": LLSD, "expect": "C12.R6",
